@@ -547,6 +547,24 @@ func glClassify(v *GlVar, e ast.Expr, stack []ast.Node, flag func(*GlVar, ast.No
 	if i < 0 {
 		return
 	}
+	// v[a:b] is a view of v's own backing storage: handing it on aliases v exactly as handing on v does
+	if _, isSlice := top.(*ast.SliceExpr); isSlice && glRefLike(v.Kind) {
+		whole := true
+		for n := ast.Node(top); n != ast.Node(e); {
+			switch x := n.(type) {
+			case *ast.SliceExpr:
+				n = x.X
+			case *ast.ParenExpr:
+				n = x.X
+			default:
+				whole = false
+				n = e
+			}
+		}
+		if whole {
+			path = false
+		}
+	}
 	switch p := stack[i].(type) {
 	case *ast.AssignStmt:
 		for _, l := range p.Lhs {
